@@ -64,5 +64,5 @@ treg("fx_attr.T.accepted", "g_attr", ["C17"], AT)
 
 # ---- fx_exec (hand/exec.rs)
 EX = "fx_exec"
-reg("c10_fx_exec_contract_method", "g_exec", ["C10"], "thorough", "generated Executor method on a contract-typed handle: WasmMsg::Execute to the handle's address, empty funds, body = canonical JSON of ExecMsg::Pay{to, amount} (values < 10)", fixture=EX)
-reg("c10_fx_exec_interface_method", "g_exec", ["C10"], "thorough", "generated Executor method on a `dyn Interface`-typed handle: body = canonical JSON of the interface ExecMsg variant", fixture=EX)
+reg("c10_fx_exec_contract_method", "g_exec", ["C10"], "quick", "generated Executor method on a contract-typed handle: WasmMsg::Execute to the handle's address, empty funds, body = canonical JSON of the same ExecMsg variant (`{\"ping\":{}}`)", fixture=EX)
+reg("c10_fx_exec_interface_method", "g_exec", ["C10"], "quick", "generated Executor method on a `dyn Interface`-typed handle: body = canonical JSON of the interface ExecMsg variant", fixture=EX)
